@@ -49,7 +49,8 @@ func (c *Decoder) nextFrame() *Frame {
 		return c.fin
 	}
 
-	if _, err := io.LimitReader(c.r, 2).Read(*buf); err != nil {
+	// A single Read may return fewer bytes than requested (e.g. at the end of the buffered chunk)
+	if _, err := io.ReadFull(c.r, (*buf)[:2]); err != nil {
 		return &Frame{
 			frameType: UNKNOWN,
 			size:      0,
